@@ -335,6 +335,8 @@ func programs(thorough bool) []Program {
 		{"deep", []string{"d/e/f"}, nil},
 		{"wide3", []string{"a", "b", "c"}, nil},
 		{"emptydir", []string{"a"}, []string{"d"}},
+		// names that begin with a dot (only the entries "." and ".." themselves are not nodes)
+		{"dotnames", []string{".h", "d/.k", ".c/x"}, nil},
 	}
 	add := func(p Program) { ps = append(ps, p) }
 	for _, t := range trees {
@@ -396,6 +398,13 @@ func programs(thorough bool) []Program {
 		p.Producers = 2
 		add(p)
 	}
+	// a listing longer than the queues while a producer slot is free (whatever a producer does with a
+	// long listing - hand part of it to a second producer, say - every entry is still delivered once)
+	p = Program{Name: "long-listing", Files: []string{"a", "b", "c", "e"}, Filter: "none", Producers: 2, Consumers: 1, MaxJob: 2, ChanSize: 1, Bound: 1}
+	add(p)
+	p.Files = []string{"a", "b", "d/c", "d/e", "d/f"}
+	p.Consumers = 2
+	add(p)
 	// MaxJob 1 forces the recursive (no free producer slot) path
 	p = Program{Name: "maxjob1", Files: []string{"a", "d/b", "d/e/f"}, Filter: "none", Producers: 1, Consumers: 1, MaxJob: 1, ChanSize: 1000, Bound: 1}
 	add(p)
